@@ -1459,6 +1459,11 @@ def make_machine(world_cls, checks, cfg_strategy, rule_weights=None):
                     items.insert(1, {"op": "execute"})
             else:
                 items = [{"op": "bulk", "kind": kind, "n": d(st.sampled_from([1, 59, 60, 61, 130]))}]
+                if d(st.integers(0, 2)) == 0:
+                    # the same transaction also holds a placement (packaged first): every kind keeps its own per-call limit
+                    items.insert(0, {"op": "bulk_place", "n": d(st.sampled_from([1, 2])), "tick": 285, "side": "BACK", "mvs": [None]})
+                    if d(st.booleans()):
+                        items.insert(1, {"op": "execute"})
             self._do({"_": "txn", "si": 0, "items": items})
 
         def teardown(self):
